@@ -100,6 +100,9 @@ class BaseTorchFlow(Flow):
                 strict=False,
             )
             config["data_transform"] = data_transform
+        # Extra flow options were captured under the "kwargs" key
+        kwargs = config.pop("kwargs", None) or {}
+        config.update(kwargs)
         obj = self(**config)
         # Load weights
         weights = {
